@@ -144,7 +144,9 @@ def sorted_before_lookup(P, chk):
                 ty = body.local_ty(t["args"][0]["place"]["l"]) if t["args"][0].get("k") in ("copy", "move") else ""
                 if "NaiveDate" in ty and "Decimal" in ty:
                     pushers.add(body.key)
-    chk.require(pushers == {PD + "::PriceRepositoryBuilder::insert_impl"}, R_SORT, "rates|pushed only by insert_impl", "",
+    allowed_p = {PD + "::PriceRepositoryBuilder::insert_impl"} if P.maybe_body(PD + "::PriceRepositoryBuilder::insert_impl") else \
+        {PD + "::PriceRepositoryBuilder::insert_price"}       # insert_impl folded into its only caller
+    chk.require(bool(pushers) and pushers <= allowed_p, R_SORT, "rates|pushed only by insert_impl", "",
                 "rate vectors are pushed to by %s" % sorted(pushers), "only the builder's insert_impl pushes rates")
 
 
@@ -260,7 +262,7 @@ def _array_elements(b, a0, a1):
             return None
         r = rs[0]
         if r.kind == "call" and "array::IntoIter" in str(r.name) and str(r.name).endswith("::next") and \
-                r.fields[:2] == ("#Some", "0") and len(r.fields) == 3 and r.site is not None:
+                r.fields[:2] == ("#Some", "0") and len(r.fields) >= 3 and r.site is not None:
             return r.site, r.fields[2]
         return None
     e0, e1 = elem(a0), elem(a1)
@@ -297,7 +299,7 @@ def source_precedence(P, chk):
     chk.require(order == ["Ledger", "PriceDB"] and "std::cmp::Ord" in derived and "std::cmp::PartialOrd" in derived,
                 R_SRC, "PriceSource|derived order Ledger < PriceDB", adt["span"]["file"] + ":%d" % adt["span"]["line"],
                 "PriceSource variants %s, derived %s" % (order, sorted(derived)), "declaration order Ledger, PriceDB with derived Ord")
-    b = P.body(PD + "::PriceRepositoryBuilder::insert_impl")
+    b = P.maybe_body(PD + "::PriceRepositoryBuilder::insert_impl") or P.body(PD + "::PriceRepositoryBuilder::insert_price")
     chk.analysed(b)
     clears = mir.call_sites(b, ["std::vec::Vec::clear"])
     ok = len(clears) == 1
@@ -318,7 +320,8 @@ def source_precedence(P, chk):
                     ok = True
         # and the push is unconditional after the zero test
         pushes = q.blocks_calling(b, ["std::vec::Vec::push"])
-        if ok and not (len(pushes) == 1 and clears[0][0] not in b.reach_from(pushes[0])):
+        hdrs = tuple(h for h, blks in b.loops().items() if pushes and pushes[0] in blks and clears[0][0] in blks)
+        if ok and not (len(pushes) == 1 and clears[0][0] not in b.reach_from(pushes[0], without_blocks=hdrs)):
             ok = False
             detail = "the new rate is not pushed after the (conditional) clear"
     chk.require(ok, R_SRC, "insert_impl|clear iff stored < new", b.loc(), detail, "entries.clear() only under stored_source < source; push follows")
@@ -326,15 +329,16 @@ def source_precedence(P, chk):
     chk.analysed(ip)
     calls = mir.call_sites(ip, [PD + "::PriceRepositoryBuilder::insert_impl"])
     pairs = []
+
+    def fld(o):
+        fs = set()
+        for r in prov(ip, o):
+            if r.kind == "param" and r.name.endswith(":event"):
+                fs.add(r.fields[0] if r.fields else "?")
+            else:
+                fs.add("?")
+        return "|".join(sorted(fs))
     for bb, t in calls:
-        def fld(o):
-            fs = set()
-            for r in prov(ip, o):
-                if r.kind == "param" and r.name.endswith(":event"):
-                    fs.add(r.fields[0] if r.fields else "?")
-                else:
-                    fs.add("?")
-            return "|".join(sorted(fs))
         # for (a, b) in [(x, y), (y, x)] { insert_impl(.., a, b) }: one call per element of the literal array
         elems = _array_elements(ip, t["args"][3], t["args"][4])
         if elems is not None:
@@ -342,6 +346,14 @@ def source_precedence(P, chk):
                 pairs.append((fld(e0), fld(e1)))
             continue
         pairs.append((fld(t["args"][3]), fld(t["args"][4])))
+    if not calls:
+        # insert_impl folded in: one loop over [(x, y), (y, x)] whose body records price_with / price_of
+        for bb, t in ip.calls():
+            if callee_def(t) == "std::ops::Div::div" and len(t["args"]) == 2:
+                elems = _array_elements(ip, t["args"][1], t["args"][0])      # (price_of, price_with) = (divisor, dividend)
+                if elems is not None:
+                    for e0, e1 in elems:
+                        pairs.append((fld(e0), fld(e1)))
     chk.require(sorted(pairs) == [("price_x", "price_y"), ("price_y", "price_x")], R_SRC, "insert_price|both directions", ip.loc(),
                 "insert_impl is called with %s" % pairs, "insert_impl(x, y) and insert_impl(y, x)")
     # who inserts with which source
